@@ -242,6 +242,24 @@ pub fn run(ctx: &Ctx, rep: &mut Report) {
             if dead {
                 break;
             }
+            if rng.chance(1, 25) {
+                let ga = w.g.addr.clone();
+                match w.u.upgrade_and_migrate(&ga) {
+                    Ok(()) => {
+                        rep.count("upgrade-and-migrate");
+                        rep.step("the gateway is upgraded to the same code and migrated".into());
+                        if let Some(d) = sweep(&mut w) {
+                            rep.violation("status-changed-by-upgrade-and-migrate", d);
+                            break;
+                        }
+                    }
+                    Err(e) => {
+                        rep.step(format!("upgrade and migrate -> {}", e));
+                        rep.foreign("upgrade-or-migrate-refused");
+                        break;
+                    }
+                }
+            }
             let k = rng.pick(&w.keys.clone()).clone();
             let st_before = status_name(&w.g.model, &k);
             let op = rng.weighted(&[3, 3, 6, 1]);
